@@ -522,7 +522,7 @@ mod kani_c19 {
 
     /// a datagram that is not a response to one standard question, or is not addressed to the query's own port with its
     /// transaction id, leaves the query exactly as it was; free, completed and failed slots are never touched
-    #[kani::proof] #[kani::unwind(40)]
+    #[kani::proof] #[kani::unwind(10)]
     fn c19_process_ignores_foreign() {
         let d = run_process();
         let i = any_index();
@@ -536,7 +536,7 @@ mod kani_c19 {
     /// a query is completed (or failed) by a response only if that response is addressed to it and, for completion, repeats its
     /// question type and - where the question name is written without compression - its name octet for octet; a completed
     /// query holds at least one address and every address it holds is the data of an A record of that response
-    #[kani::proof] #[kani::unwind(40)]
+    #[kani::proof] #[kani::unwind(10)]
     fn c19_process_completes_only_on_match() {
         let d = run_process();
         let i = any_index();
@@ -568,7 +568,7 @@ mod kani_c19 {
 
     /// a response whose question names another host (uncompressed, differing from the query's name) or another type never ends
     /// the query successfully and leaves it pending unless it is an NXDomain
-    #[kani::proof] #[kani::unwind(40)]
+    #[kani::proof] #[kani::unwind(10)]
     fn c19_process_question_mismatch() {
         let d = run_process();
         let i = any_index();
